@@ -608,6 +608,9 @@ func analyseMarshal(p *Program, kf *KindFacts) {
 						if n, ok := sprintfDigits(f); ok {
 							sigs["bcd:"+f] = true
 							kf.Widths[int64((n+1)/2)] = true
+							if d := componentOrder(arg, "v"); d != "" {
+								kf.SigDetail += "; " + d
+							}
 							continue
 						}
 					}
@@ -638,6 +641,37 @@ func analyseMarshal(p *Program, kf *KindFacts) {
 			kf.EncZeroImg = "0" + kf.EncZeroImg
 		}
 	}
+}
+
+// componentOrder: the variadic arguments of a Sprintf over a struct value are its integer fields in declaration order.
+func componentOrder(call *Term, recv string) string {
+	if len(call.Args) < 2 || call.Args[1].Op != "sref" {
+		return ""
+	}
+	els := srefElems(call.Args[1])
+	var fields []string
+	for _, e := range els {
+		x := e
+		for x != nil && (x.Op == "iface" || x.Op == "conv") {
+			x = x.Args[0]
+		}
+		if x == nil || x.Op != "field" {
+			return "format argument is not a field of the value: " + e.String()
+		}
+		fields = append(fields, x.Name)
+		if st, ok := x.Args[0].Typ.Underlying().(*types.Struct); ok {
+			idx := -1
+			for i := 0; i < st.NumFields(); i++ {
+				if st.Field(i).Name() == x.Name {
+					idx = i
+				}
+			}
+			if idx != len(fields)-1 {
+				return fmt.Sprintf("components are written out of order: argument %d is field %s", len(fields), x.Name)
+			}
+		}
+	}
+	return ""
 }
 
 func stripConv(t *Term) *Term {
